@@ -120,7 +120,11 @@ def explore(res, text, tags, seed, nrand, pool, model=None, sort_lists=False, pr
                                           "count_more": 0, "replay": {"program_text": text if prog is not None else None, "file": name,
                                                                       "mode": mode, "script": log, "case_digest": digest((text, mode, log))}})
             continue
-        res["violations"].append(build_violation(sig, sigt, b2, mode, log, text, tags, prog, model, sort_lists, name))
+        bv = build_violation(sig, sigt, b2, mode, log, text, tags, prog, model, sort_lists, name)
+        if bv is None:
+            res["inconclusive"]["fast_diff_not_confirmed_by_real"] = res["inconclusive"].get("fast_diff_not_confirmed_by_real", 0) + 1
+            continue
+        res["violations"].append(bv)
     if len(res["samples"]) < 1 and sample:
         res["samples"].append({"program": text if len(text) < 1500 else name, "tags": tags,
                                "default": {k: base.get(k) for k in ("kind", "results", "cls", "steps")}, "alternative": sample})
@@ -158,6 +162,8 @@ def build_violation(sig, sigt, base, mode, log, text, tags, prog, model, sort_li
     s1, sigt1, log1, base1, o1 = pair_signature(text, mode, choice, model, sort_lists)
     if s1 == sig:
         sigt, base, log = sigt1, base1, log1
+    else:
+        return None  # seen with the in-process evaluator only: not confirmed by the real pipeline
     if prog is not None:
         # while the program shrinks a scripted choice log keeps steering by position; good enough to stay in the same class
         small = DC.minimise_program(prog, lambda t: pair_signature(t, mode, choice, None, sort_lists)[0], sig)
